@@ -91,6 +91,7 @@ func c15(c *Ctx) {
 	r.Rule("M1", "entry-point agreement per map ADL type: LookupByNode/LookupBySegment forward LookupByString(key.AsString()/seg.String()) unmodified; native Lookup passes key.String() to the same primitive functions as LookupByString")
 	r.Rule("M6", "the list-scanning lookup primitive leaves its links loop only when the iterator is exhausted or on the edge where the key equals the link's name: it never stops early on an ordering assumption (link lists may arrive in any order)")
 	r.Rule("M8", "Length() of the sharded directory is the count of a complete walk: the walk visits every link, recurses into every child shard, and the memoised count is written only by that walk after its loop has finished (an iterator or lookup that writes the memo can make Length() disagree with what iteration yields)")
+	r.Rule("M9", "the sharded lookup compares the whole stored name after the hash prefix with the key: where the match predicate compares a slice of the link name with the key, that slice starts at the prefix length and runs to the end of the name (a tail or an inner slice would let a key match an entry whose name merely ends with / contains it)")
 	r.Rule("M7", "every lookup entry point of the sharded directory hands the descent a hash cursor allocated in that very call (the cursor is stateful: it may be passed down the recursion but never reused across calls)")
 	r.Rule("M2", "Length() returns Length() of the links list at the same access path the iterators are created from (or the result of the walk function for sharded directories); list-iterator wrappers return the wrapped iterator's Next/Done results unmodified")
 	r.Rule("M3", "every function that tests a link's Name for existence uses the constant \"\" on the absent branch")
@@ -201,6 +202,7 @@ func c15(c *Ctx) {
 	c.checkAbsentName()
 	c.checkShardedAgreement()
 	c.checkLengthWalk()
+	c.checkKeyMatchExact()
 	c.checkOverread()
 }
 
@@ -807,4 +809,59 @@ func (c *Ctx) checkLengthWalk() {
 		r.Check(len(bad) == 0, "M8", core.FuncName(fn)+"/count-is-complete-walk", c.P.Pos(fn.Pos()), "the count is produced, and memoised, only by a complete walk of the shard tree", uniqJoin(bad))
 	}
 	r.Floor("M8", n, 1)
+}
+
+// checkKeyMatchExact implements M9.
+func (c *Ctx) checkKeyMatchExact() {
+	r := c.R
+	n := 0
+	for _, fn := range c.G.Funcs() {
+		rel, ok := c.P.PkgOf(fn)
+		if !ok || rel != "hamt" || fn.Synthetic != "" || len(fn.Blocks) == 0 {
+			continue
+		}
+		sig := fn.Signature
+		if sig.Results().Len() != 1 || !isBasic(sig.Results().At(0).Type(), types.Bool) {
+			continue
+		}
+		var keyP, padP *ssa.Parameter
+		for _, p := range fn.Params {
+			if isBasic(p.Type(), types.String) && keyP == nil {
+				keyP = p
+			}
+			if isBasic(p.Type(), types.Int) && padP == nil {
+				padP = p
+			}
+		}
+		if keyP == nil || padP == nil {
+			continue
+		}
+		// equality comparisons with the key
+		for _, b := range fn.Blocks {
+			for _, ins := range b.Instrs {
+				bo, ok := ins.(*ssa.BinOp)
+				if !ok || bo.Op != token.EQL {
+					continue
+				}
+				var other ssa.Value
+				switch {
+				case bo.X == ssa.Value(keyP):
+					other = bo.Y
+				case bo.Y == ssa.Value(keyP):
+					other = bo.X
+				default:
+					continue
+				}
+				sl, isSlice := other.(*ssa.Slice)
+				if !isSlice {
+					continue
+				}
+				n++
+				key := core.FuncName(fn) + "/whole-name-after-prefix"
+				good := sl.Low == ssa.Value(padP) && sl.High == nil
+				r.Check(good, "M9", key, c.P.Pos(bo.Pos()), "the key is compared with name[pad:]", "the key is compared with a slice of the name that does not run from the hash prefix to the end of the name: a different key can match this entry")
+			}
+		}
+	}
+	r.Floor("M9", n, 1)
 }
